@@ -62,13 +62,13 @@ BOUNDS = {
     "quick": "FitImaging (real Mask2D/Array2D/Imaging, a 3-line subclass supplying model_data/inversion): ALL masks (>=1 unmasked pixel, one forked "
              "path each) of shapes 1x1,1x2,2x1,1x3,2x2,2x3,3x2,1x5,3x3; data, model, noise (>0 on unmasked pixels), background sky level and - in "
              "masked-native mode - the values stored in masked pixels of data/model/noise are solver variables (masked noise unconstrained, also 0 or <0); "
-             "sky level symbolic => both the `!= 0` and the `== 0` branch of FitImaging.data are explored; both modes: slim-stored arrays with "
+             "residual_flux_fraction_map: shapes with <= 6 pixels; sky level symbolic => both the `!= 0` and the `== 0` branch of FitImaging.data are explored; both modes: slim-stored arrays with "
              "use_mask_in_fit=False and native-stored arrays with use_mask_in_fit=True. Signal-to-noise map: shapes with <= 4 pixels (its clipping forks "
              "per pixel). fit_util functions directly on plain arrays: all masks of shapes with <= 6 pixels, every array entry and the 5 evidence terms "
              "symbolic. Evidence: real AbstractInversion over mock linear objects, object lists R1,R2,U1,U1U1,R2U1,U1R2,R1R2,U1R2U1,R1U1R1,U1U1R2,R1U1R1U1 "
              "(R/U = regularized/unregularized object, digit = number of parameters), symmetric curvature matrix F, regularization blocks H_i and "
              "reconstruction s fully symbolic, combined with all masks of 2x2 in both modes and symbolic sky",
-    "thorough": "same, shapes additionally 2x4,4x2,1x7,2x5,3x4 for the fit statistics (residual-flux-fraction <= 10 pixels, signal-to-noise <= 6 pixels, "
+    "thorough": "same, shapes additionally 2x4,4x2,1x7,2x5,3x4 for the fit statistics (residual-flux-fraction <= 10 pixels incl. 3x3, signal-to-noise <= 6 pixels, "
                 "fit_util <= 10 pixels); evidence additionally for object lists R3,U2R2,R2U2,U1R1U1R1,R2R2,U2R1U1,R1R1R1,U1R3U1,R1U2R1 and masks of 2x3",
 }
 OUTSIDE = [
@@ -676,10 +676,10 @@ def cases(tier):
         shapes += [(2, 4), (4, 2), (1, 7), (2, 5), (3, 4)]
     for (H, W) in shapes:
         n = H * W
-        sp = {"split": 0 if n < 8 else (2 if n < 10 else (4 if n < 12 else 6))}
+        sp = {"split": 0 if n < 8 else (4 if n < 10 else (5 if n < 12 else 7))}
         for native in (False, True):
             out.append(("case_fit", {"H": H, "W": W, "native": native}, sp))
-            if n <= (9 if quick else 10):
+            if n <= (6 if quick else 10):
                 out.append(("case_rff", {"H": H, "W": W, "native": native}, sp))
             if n <= (4 if quick else 6):
                 out.append(("case_snr", {"H": H, "W": W, "native": native}, {"split": 0 if n <= 4 else 4}))
